@@ -189,10 +189,8 @@ func c06Ref(input string, useNumber bool) (map[string]interface{}, bool, bool) {
 	case map[string]interface{}:
 		return t, true, false
 	case []interface{}:
-		// textual wrapping is documented; an array followed by further non-blank bytes is an open corner
-		rest := input[dec.InputOffset():]
-		amb := strings.Trim(rest, " \t\r\n") != "" // JSON white space only
-		return map[string]interface{}{"object": t}, true, amb
+		// the first value, wrapped under "object" - whatever follows it, exactly as for an object
+		return map[string]interface{}{"object": t}, true, false
 	case nil:
 		return nil, true, false // top-level null: nil or empty Map accepted
 	}
@@ -285,7 +283,7 @@ func c06Run(c *Ctx) {
 	mustBeDefault(c)
 	bsu := "\\" + "u003c" // the six-character text backslash-u-0-0-3-c, as data
 	c.S.Rule = "encode side: (a) every Map template with <= N nodes over keys {a, k} with leaves {\"s\", \"<&>\", 1.5, true, null} and (b) the structures {k:s}, {s:v}, {k:[s,{j:s}]} for every word s of <= 3 tokens over {<, >, &, backslash, quote, the six-character texts \\u003c \\u003e \\u0026 \\u2028 \\u2029 as data, u003c, U+0001, newline, a, e-acute, U+2028}; encoders Json, JsonIndent (4 prefix/indent pairs incl. both empty), Copy, j2x.MapToJson, default and safe encoding; oracle: valid JSON, NewMapJson(out) deep-equals the original, default mode shows every <,>,& of the data literally, safe mode shows none and is byte-identical to encoding/json; returned bytes retained and re-checked after later calls; plus a scale family (strings of 5000 / 70000 bytes with special characters throughout and at 4096-byte boundaries, 300 keys, a list of 1025 maps, nesting depth 100, numbers at the float64 boundaries). decode side: every byte string of <= K tokens over {{, }, [, ], \"a\", :, comma, 1, 1.0, null, true, space, x, form feed, U+00A0} with JsonUseNumber off and on; oracle: NewMapJson accepts exactly when encoding/json's Decoder decodes the first value as an object (or array, wrapped under \"object\") and returns the same value; number text survives with JsonUseNumber. non-trivial = data with <,>,& (encode) / accepted non-empty value (decode)."
-	c.S.Assumptions = []string{"top-level null: nil or empty Map accepted", "an array followed by further non-blank bytes: reject, accept as {object: array}, and accept as the decode of the documented textual wrapping {\"object\": input} are all accepted"}
+	c.S.Assumptions = []string{"top-level null: nil or empty Map accepted"}
 	n, k := 4, 5
 	if c.Thorough {
 		n, k = 5, 6
